@@ -21,6 +21,11 @@ CLAIMS = {
   'text': 'Partial, structural: decides "no input string makes the parser panic" (all may-panic sites reachable from from_str_radix/from_str/parse_bytes discharged or reviewed with re-checked guards). The accepted grammar and the denoted value are NOT decided.',
   'note': TRUST + ' str::find returns a char-boundary index; BigInt::from_str_radix panics only for radix outside 2..=36.',
  },
+ 'C20': {
+  'technique': 'static analysis: interprocedural provenance (taint) of the build-time constants over MIR, including build.rs; decision is per consumer, independent of the constants\' values',
+  'text': 'Partial, structural: decides which generated constant reaches which consumer - build.rs maps each documented RUST_BIGDECIMAL_* variable to exactly one generated const; Context::default/RoundingMode::default return only those consts; sqrt/cbrt/inverse pass a Context derived only from them; round(n) uses the default mode; every Div kernel hands DEFAULT_PRECISION to impl_division whose loop consumes it; exp\'s result precision is DEFAULT_PRECISION; Display passes the two thresholds in order, the dispatcher compares them, no other literal threshold orders a scale-derived value, the padding limit is compared; formatting rounds with the default mode and the number\'s sign. Because the rules do not depend on the constants\' values one analysis covers all configurations (thorough re-extracts under two other environments to confirm). Numeric agreement of default and explicit-context operations is NOT decided.',
+  'note': TRUST + ' Provenance is flow-insensitive per local and treats unlisted std callees as opaque sources.',
+ },
 }
 _PENDING = 'check not built yet in this commit (implementation in progress, see DESIGN.md section 8)'
 NOT_APPLICABLE = {('C%02d' % i): _PENDING for i in range(1, 21) if ('C%02d' % i) not in CLAIMS}
